@@ -385,10 +385,28 @@ func runGateMiss(in Input) lib.Result {
 	orig := c.New
 	var calls int32
 	entered := make(chan struct{}, 4)
+	second := make(chan struct{}, 4)
 	c.New = func(k string) interface{} {
-		if atomic.AddInt32(&calls, 1) == 1 {
+		switch atomic.AddInt32(&calls, 1) {
+		case 1:
 			entered <- struct{}{}
-			time.Sleep(50 * time.Millisecond)
+			if which == "segments" {
+				// the writer: wait for the render to miss the same segment (only possible when misses are not
+				// serialized), at most 50 ms
+				select {
+				case <-second:
+				case <-time.After(50 * time.Millisecond):
+				}
+			} else {
+				time.Sleep(50 * time.Millisecond)
+			}
+		case 2:
+			if which == "segments" {
+				// the render, inside its own miss of the same key while the writer is still creating its object:
+				// let the writer finish and be acknowledged before this miss ends with its lfu.Set
+				second <- struct{}{}
+				time.Sleep(30 * time.Millisecond)
+			}
 		}
 		return orig(k)
 	}
@@ -618,16 +636,20 @@ func gen(r *rand.Rand, idx int, tier string) Input {
 	in := Input{Stream: "main", Writers: lib.Range(r, 1, 8), Readers: lib.Range(r, 1, 8), PerWriter: lib.Range(r, 2, 6),
 		Labels: lib.Chance(r, 0.5), ColdStart: lib.Chance(r, 0.5), SameSlot: lib.Chance(r, 0.3),
 		Procs: lib.Pick(r, []int{2, 4, 8, 16}), Seed: r.Int63()}
-	switch idx % 6 {
+	switch idx % 7 {
 	case 4:
 		in.Stream = "evict"
 	case 5:
 		in.Stream = "delete"
+		in.Writers, in.Readers, in.PerWriter = lib.Range(r, 2, 4), lib.Range(r, 4, 8), lib.Range(r, 3, 6)
+	case 6:
+		in.Stream = "dims"
+		in.Readers = lib.Range(r, 2, 8)
 	}
 	return in
 }
 
 func main() {
 	logrus.SetOutput(io.Discard)
-	lib.Main(lib.Harness[Input]{Prop: "C08", Quick: 36, Thorough: 600, Gen: gen, Run: run})
+	lib.Main(lib.Harness[Input]{Prop: "C08", Quick: 84, Thorough: 700, Gen: gen, Run: run})
 }
